@@ -263,7 +263,7 @@ impl Prop for C01 {
                 "serial-framed messages have no reception time in the stream; the synthesised one is not compared".into()],
             budget_s: (40, 1200),
             workers: 0,
-            required_landmarks: vec!["has_garbage", "garbage_ge_20", "serial", "storage", "leading_garbage(undetected phase)", "max_size_msg"],
+            required_landmarks: vec!["has_garbage", "garbage_ge_20", "serial", "storage", "leading_garbage(undetected phase)", "max_size_msg", "via_lowmark_reader", "reader_production"],
         }
     }
 
@@ -442,6 +442,56 @@ impl Prop for C01 {
                             done = false;
                             break 'r2;
                         }
+                    }
+                }
+            }
+            ctx.end_family(done);
+            if !done {
+                return;
+            }
+        }
+        // (r3) the readers' production parameters: 512 KiB buffer, low mark = the repository's constants; a maximum-size
+        // message starts where in_buf bytes are buffered, for every in_buf around the low mark
+        {
+            use adlt::dlt::{DLT_MAX_STORAGE_MSG_SIZE, DLT_MIN_PARSER_LOOKAHEAD_SIZE};
+            let cap = 512usize * 1024;
+            let (lo, hi) = if !thorough { (65_490usize, 65_610usize) } else { (64_000, 67_000) };
+            ctx.begin_family("reader_production", &format!("both framings, 8 large messages + one of maximum size starting where in_buf = {lo}..={hi} bytes of the first 512 KiB window are left + 3 small ones, through LowMarkBufReader(512 KiB, low mark in {{DLT_MAX_STORAGE_MSG_SIZE={DLT_MAX_STORAGE_MSG_SIZE}, DLT_MIN_PARSER_LOOKAHEAD_SIZE={DLT_MIN_PARSER_LOOKAHEAD_SIZE}}})"));
+            done = true;
+            'r3: for fr in &framings {
+                let frame = if *fr == Framing::Serial { 4 } else { 16 };
+                for in_buf in lo..=hi {
+                    for low in [DLT_MAX_STORAGE_MSG_SIZE, DLT_MIN_PARSER_LOOKAHEAD_SIZE] {
+                        if ctx.mine() {
+                            let o = cap - in_buf;
+                            let mut ms: Vec<MsgSpec> = vec![];
+                            let mut len = 0usize;
+                            let mut i = 0usize;
+                            while len + (60_000 + frame) + frame + 100 <= o {
+                                let mut m = shape(fr, 0, 0, 0, i as u8, i);
+                                m.payload = payload_bytes(60_000 - m.hdr_size(), i as u8);
+                                len += frame + 60_000;
+                                ms.push(m);
+                                i += 1;
+                            }
+                            // one adjustable message so that the next one starts at offset o
+                            let rest = o - len - frame;
+                            let mut m = shape(fr, 0, 0, 0, i as u8, i);
+                            m.payload = payload_bytes(rest - m.hdr_size(), i as u8);
+                            ms.push(m);
+                            i += 1;
+                            ms.push(shape(fr, WTMS | UEH, usize::MAX, 0, i as u8, i));
+                            for k in 0..3 {
+                                ms.push(shape(fr, [0u8, 31, UEH][k], 3 + k, k, (i + 1 + k) as u8, i + 1 + k));
+                            }
+                            let n = ms.len();
+                            ctx.landmark("reader_production");
+                            run_stream_via(ctx, "reader_production", ms, vec![vec![]; n + 1], Via::Reader { cap, low, chunk: usize::MAX });
+                        }
+                    }
+                    if in_buf % 8 == 0 && ctx.out_of_time() {
+                        done = false;
+                        break 'r3;
                     }
                 }
             }
